@@ -15,11 +15,11 @@ META = {
              "statement was given are exactly the bytes it produced",
     "technique": "CrossHair symbolic execution of compile_block/compile_file/compile_include/Deferred.length/SizedDeferred/Concatenator with "
                  "symbolic base, sizes and data; z3 decides label values and the per-statement address invariant against a reference size model",
-    "bounds": "programs of 1..4 statements (+labels, +probe table) per file over 17 statement kinds; sizes N, K in 0..4 (quick) / 0..6 (thorough) (lengths are realised), "
+    "bounds": "programs of 1..4 statements (+labels, +probe table) per file over 20 statement kinds (incl. '.'-dependent operands after an extension word and a .repeat body whose size depends on its address); sizes N, K in 0..4 (quick) / 0..6 (thorough) (lengths are realised), "
               "defined before or after their use; base: every value 0..65535 with base+length < 2^16; 1..3 linked files, include depth <= 2",
     "outside": ["programs longer than 4 statements per file", "sizes above 6", "the 21-program practice corpus (500-line programs are beyond the "
                 "tracing budget; not claimed)"],
-    "structure": "quick: all single kinds and all ordered pairs in one file + multi-file/include placements; thorough: + seeded triples/quadruples",
+    "structure": "quick: all single kinds and a seeded third of the ordered pairs in one file (thorough: all pairs) + multi-file/include placements; thorough: + seeded triples/quadruples",
     "stubs": ["insert_file / .include read real files written to /verif/build/aux with concrete contents"],
 }
 
@@ -48,6 +48,9 @@ KINDS = {
     "skip":    (". = . + {KSYM}", "K", False, ["K"]),
     "repeat":  (".repeat {NSYM} { .byte 5, 6 }", "repN", False, ["N"]),
     "repdot":  (".repeat 2 { .word . }", 4, True, []),
+    "insndot": ("mov #., @#.", 6, True, []),
+    "idxdot":  ("bis #1, .-2(r3)", 6, True, []),
+    "repvar":  (".repeat {NSYM} { .align 4\n .word .\n .byte 1, 2, 3 }", "repvar", True, ["N"]),
     "insert":  ("insert_file \"ins.bin\"", 3, False, []),
     "include": (".include \"inc.mac\"", 3, True, []),
 }
@@ -72,7 +75,30 @@ def size_of(kind, addr, vals):
         return (addr + 1) % 2
     if rule == "align4":
         return (-addr) % 4
+    if rule == "repvar":
+        a = addr
+        for _ in range(vals["N"]):
+            a = a + (-a) % 4 + 5
+        return a - addr
     raise AssertionError(rule)
+
+
+def content_of(kind, addr, vals):
+    """Expected words [(byte offset in statement, value)] for statements whose content depends on '.'."""
+    if kind == "insndot":
+        return [(2, addr), (4, addr)]
+    if kind == "idxdot":
+        return [(2, 1), (4, addr - 2)]
+    if kind == "repdot":
+        return [(0, addr), (2, addr + 2)]
+    if kind == "repvar":
+        out, a = [], addr
+        for _ in range(vals["N"]):
+            a = a + (-a) % 4
+            out.append((a - addr, a))
+            a = a + 5
+        return out
+    return []
 
 
 def build_file(kinds, fileno, nplace, kplace):
@@ -116,11 +142,14 @@ def h_layout(params, vals, ctx):
     # ---- reference size model; word-sized statements must sit on even addresses -------------
     addr = b
     label_addrs = []
+    contents = []
     for fk in files_kinds:
         for k in fk:
             if KINDS[k][2]:
                 require(addr % 2 == 0)
             label_addrs.append(addr)
+            for off, val in content_of(k, addr, vals):
+                contents.append((addr - b + off, val))
             addr = addr + size_of(k, addr, vals)
         label_addrs.append(addr)
     pad = addr % 2
@@ -149,6 +178,9 @@ def h_layout(params, vals, ctx):
     toff = table_at - b
     for j, la in enumerate(label_addrs):
         if not (word_at(code, toff + 2 * j) == la):
+            return False
+    for off, val in contents:
+        if not (word_at(code, off) == val % 65536):
             return False
     # ---- hook: every traced statement's bytes lie at the address it was given ----------------
     if params.get("hook", True) and o.trace is not None:
@@ -209,6 +241,8 @@ def _obligations(tier, seed):
                 continue
             obs.append(_ob(f"single/{k}/{place}", [[k]], nplace=place, kplace=place))
     for a, b_ in itertools.product(ORDER, ORDER):
+        if tier == "quick" and (ORDER.index(a) * 7 + ORDER.index(b_) * 3 + seed) % 3:
+            continue  # quick: a seeded third of the ordered pairs; thorough: all of them
         place = "after" if (ORDER.index(a) + ORDER.index(b_)) % 2 else "before"
         obs.append(_ob(f"pair/{a}+{b_}", [[a, b_]], nplace=place, kplace=place))
     # multi-file and include placements
